@@ -108,6 +108,24 @@ impl IpBlocks {
     pub fn intersects_block(&self, block: RawPrefix) -> (r: bool)
         ensures r == !self.addrs_spec().disjoint(block.addrs_spec()),
     { unimplemented!() }
+
+    // ASSUMED (sibling API of intersects_block in rpki, declared so that code
+    // switching to it is decided rather than rejected): containment of the
+    // block's addresses; emptiness; containment of another block set.
+    #[verifier::external_body]
+    pub fn contains_block(&self, block: RawPrefix) -> (r: bool)
+        ensures r == block.addrs_spec().subset_of(self.addrs_spec()),
+    { unimplemented!() }
+
+    #[verifier::external_body]
+    pub fn is_empty(&self) -> (r: bool)
+        ensures r == (self.addrs_spec() =~= ISet::<u128>::empty()),
+    { unimplemented!() }
+
+    #[verifier::external_body]
+    pub fn contains(&self, other: &IpBlocks) -> (r: bool)
+        ensures r == other.addrs_spec().subset_of(self.addrs_spec()),
+    { unimplemented!() }
 }
 
 // ---- crate::payload::info, crate::slurm
@@ -642,3 +660,179 @@ impl IpBlocksBuilder {
     pub fn finalize(self) -> (r: IpBlocks) ensures r.addrs_spec() == self.addrs_spec(),
     { unimplemented!() }
 }
+
+// ---- further API of the rpki resource types (declared so that code using
+// them still reaches the verifier; contracts as far as the abstract view goes)
+#[verifier::external_body] pub struct PrefixError { _opaque: () }
+#[verifier::external_body] pub struct MaxLenError { _opaque: () }
+
+impl IpAddr {
+    pub uninterp spec fn is_ipv4_spec(&self) -> bool;
+    #[verifier::external_body]
+    pub fn is_ipv4(&self) -> (r: bool) ensures r == self.is_ipv4_spec(),
+    { unimplemented!() }
+    #[verifier::external_body]
+    pub fn is_ipv6(&self) -> (r: bool) ensures r == !self.is_ipv4_spec(),
+    { unimplemented!() }
+}
+
+impl Asn {
+    // the AS number
+    pub uninterp spec fn u32_spec(&self) -> u32;
+    #[verifier::external_body]
+    pub fn from_u32(value: u32) -> (r: Asn) ensures r.u32_spec() == value,
+    { unimplemented!() }
+    #[verifier::external_body]
+    pub fn into_u32(self) -> (r: u32) ensures r == self.u32_spec(),
+    { unimplemented!() }
+}
+// an Asn is determined by its number
+pub broadcast axiom fn axiom_asn_ext(a: Asn, b: Asn)
+    ensures (#[trigger] a.u32_spec() == #[trigger] b.u32_spec()) ==> a == b;
+impl vstd::std_specs::convert::FromSpecImpl<u32> for Asn {
+    open spec fn obeys_from_spec() -> bool { false }
+    uninterp spec fn from_spec(v: u32) -> Asn;
+}
+impl From<u32> for Asn {
+    #[verifier::external_body]
+    fn from(value: u32) -> (r: Asn) ensures r.u32_spec() == value,
+    { unimplemented!() }
+}
+
+impl PartialEqSpecImpl for Prefix {
+    open spec fn obeys_eq_spec() -> bool { true }
+    open spec fn eq_spec(&self, other: &Prefix) -> bool { *self == *other }
+}
+impl PartialEq for Prefix {
+    #[verifier::external_body]
+    fn eq(&self, other: &Self) -> bool { unimplemented!() }
+}
+impl Prefix {
+    #[verifier::external_body]
+    pub fn new(addr: IpAddr, len: u8) -> (r: Result<Prefix, PrefixError>)
+        ensures r matches Ok(p) ==> p.len_spec() == len && p.bits_spec() == addr.bits_spec()
+                    && p.is_v4_spec() == addr.is_ipv4_spec(),
+    { unimplemented!() }
+    #[verifier::external_body]
+    pub fn new_relaxed(addr: IpAddr, len: u8) -> (r: Result<Prefix, PrefixError>)
+        ensures r matches Ok(p) ==> p.len_spec() == len && p.is_v4_spec() == addr.is_ipv4_spec(),
+    { unimplemented!() }
+    #[verifier::external_body]
+    pub fn is_v6(self) -> (r: bool) ensures r == !self.is_v4_spec(),
+    { unimplemented!() }
+    #[verifier::external_body]
+    pub fn addr_and_len(self) -> (r: (IpAddr, u8))
+        ensures r.0.bits_spec() == self.bits_spec(), r.1 == self.len_spec(),
+    { unimplemented!() }
+    #[verifier::external_body]
+    pub fn min_addr(self) -> (r: IpAddr) ensures r.bits_spec() == self.bits_spec(),
+    { unimplemented!() }
+    #[verifier::external_body]
+    pub fn max_addr(self) -> IpAddr
+    { unimplemented!() }
+}
+
+impl PartialEqSpecImpl for MaxLenPrefix {
+    open spec fn obeys_eq_spec() -> bool { true }
+    open spec fn eq_spec(&self, other: &MaxLenPrefix) -> bool { *self == *other }
+}
+impl PartialEq for MaxLenPrefix {
+    #[verifier::external_body]
+    fn eq(&self, other: &Self) -> bool { unimplemented!() }
+}
+impl MaxLenPrefix {
+    // the max-length as given (None: absent)
+    pub uninterp spec fn max_len_spec(&self) -> Option<u8>;
+    #[verifier::external_body]
+    pub fn new(prefix: Prefix, max_len: Option<u8>) -> (r: Result<MaxLenPrefix, MaxLenError>)
+        ensures r matches Ok(p) ==> p.prefix_spec() == prefix && p.max_len_spec() == max_len,
+    { unimplemented!() }
+    #[verifier::external_body]
+    pub fn saturating_new(prefix: Prefix, max_len: Option<u8>) -> (r: MaxLenPrefix)
+        ensures r.prefix_spec() == prefix,
+    { unimplemented!() }
+    #[verifier::external_body]
+    pub fn addr(self) -> (r: IpAddr) ensures r.bits_spec() == self.prefix_spec().bits_spec(),
+    { unimplemented!() }
+    #[verifier::external_body]
+    pub fn prefix_len(self) -> (r: u8) ensures r == self.prefix_spec().len_spec(),
+    { unimplemented!() }
+    #[verifier::external_body]
+    pub fn max_len(self) -> (r: Option<u8>) ensures r == self.max_len_spec(),
+    { unimplemented!() }
+}
+
+impl RouteOrigin {
+    #[verifier::external_body]
+    pub fn new(prefix: MaxLenPrefix, asn: Asn) -> (r: RouteOrigin) ensures r == (RouteOrigin { prefix, asn }),
+    { unimplemented!() }
+}
+
+impl MaxLenPrefix {
+    // the max-length, or the prefix length if no max-length is given
+    pub uninterp spec fn resolved_max_len_spec(&self) -> u8;
+    #[verifier::external_body]
+    pub fn resolved_max_len(self) -> (r: u8) ensures r == self.resolved_max_len_spec(),
+    { unimplemented!() }
+}
+impl Validity {
+    #[verifier::external_body]
+    pub fn not_before(self) -> Time { unimplemented!() }
+    #[verifier::external_body]
+    pub fn trim(self, other: Validity) -> Validity { unimplemented!() }
+}
+impl<T> SegQueue<T> {
+    #[verifier::external_body]
+    pub fn is_empty(&self) -> bool { unimplemented!() }
+    #[verifier::external_body]
+    pub fn len(&self) -> usize { unimplemented!() }
+}
+impl SmallAsnSet {
+    #[verifier::external_body]
+    pub fn len(&self) -> usize { unimplemented!() }
+    #[verifier::external_body]
+    pub fn is_empty(&self) -> bool { unimplemented!() }
+    #[verifier::external_body]
+    pub fn contains(&self, asn: Asn) -> (r: bool) ensures r == self.asns().contains(asn),
+    { unimplemented!() }
+}
+impl LocalExceptions {
+    #[verifier::external_body]
+    pub fn empty() -> LocalExceptions { unimplemented!() }
+}
+// ---- std functions without a vstd specification (ASSUMED; their documented meaning)
+pub assume_specification<T, E> [std::result::Result::<T, E>::unwrap_or] (_0: std::result::Result<T, E>, _1: T) -> (r: T)
+    where E: std::marker::Destruct, T: std::marker::Destruct,
+    ensures r == (match _0 { Ok(v) => v, Err(_) => _1 }),
+;
+pub assume_specification<T, E> [std::result::Result::<T, E>::unwrap_or_default] (_0: std::result::Result<T, E>) -> (r: T)
+    where E: std::marker::Destruct, T: std::default::Default + std::marker::Destruct,
+    ensures _0 matches Ok(v) ==> r == v,
+;
+pub assume_specification<T> [std::cmp::max] (_0: T, _1: T) -> (r: T)
+    where T: std::cmp::Ord + std::marker::Destruct,
+    ensures T::obeys_cmp_spec() ==> r == (if _0.cmp_spec(&_1) == std::cmp::Ordering::Greater { _0 } else { _1 }),
+;
+pub assume_specification<T> [<[T]>::contains] (_0: &[T], _1: &T) -> (r: bool)
+    where T: std::cmp::PartialEq,
+    ensures T::obeys_eq_spec() ==> r == exists|i: int| 0 <= i < _0@.len() && (#[trigger] _0@[i]).eq_spec(_1),
+;
+pub assume_specification<T, P> [std::option::Option::<T>::filter] (_0: std::option::Option<T>, _1: P) -> (r: std::option::Option<T>)
+    where P: std::ops::FnOnce(&T,) -> bool + std::marker::Destruct, T: std::marker::Destruct,
+    ensures _0 is None ==> r is None,
+            r matches Some(v) ==> _0 == Some(v) && _1.ensures((&v,), true),
+            (_0 is Some && r is None) ==> _1.ensures((&_0->Some_0,), false),
+;
+pub assume_specification<'a, T> [std::option::Option::<&T>::copied] (_0: std::option::Option<&'a T>) -> (r: std::option::Option<T>)
+    where T: std::marker::Copy,
+    ensures r == (match _0 { Some(v) => Some(*v), None => None }),
+;
+pub assume_specification<T, U, F> [std::option::Option::<T>::map_or] (_0: std::option::Option<T>, _1: U, _2: F) -> (r: U)
+    where F: std::ops::FnOnce(T,) -> U + std::marker::Destruct, U: std::marker::Destruct,
+    ensures _0 is None ==> r == _1,
+            _0 matches Some(v) ==> _2.ensures((v,), r),
+;
+pub assume_specification<T> [std::option::Option::<T>::or] (_0: std::option::Option<T>, _1: std::option::Option<T>) -> (r: std::option::Option<T>)
+    where T: std::marker::Destruct,
+    ensures r == (if _0 is Some { _0 } else { _1 }),
+;
